@@ -19,6 +19,14 @@ LEAF = [
     {"type": "number", "exclusiveMinimum": 0}, {"type": "integer", "multipleOf": 3},
     {"properties": {"": {"type": "string"}}}, {"properties": {"": {"type": "string"}, "blank": {"type": "integer"}}},
     {"type": "object", "title": "E", "properties": {"": {"type": "string"}}, "additionalProperties": False},
+    # boundary variants of the keywords the enumeration above touches only once, and the object keywords on a model class
+    {"maximum": 1.5}, {"exclusiveMaximum": 1.5}, {"minItems": 2}, {"maxItems": 0}, {"maxItems": 2}, {"minProperties": 2},
+    {"maxProperties": 0}, {"maxProperties": 2}, {"minLength": 2}, {"maxLength": 0}, {"maxLength": 2}, {"pattern": "a"},
+    {"type": "array", "uniqueItems": True, "minItems": 1, "maxItems": 2}, {"type": "object", "title": "Cnt", "minProperties": 1, "maxProperties": 2},
+    {"type": "object", "title": "K1", "propertyNames": {"maxLength": 1}}, {"type": "object", "title": "K2", "dependencies": {"a": ["b"]}},
+    {"type": "object", "title": "K3", "const": {"a": 1}}, {"type": "object", "title": "K4", "enum": [{"a": 1}, {}]},
+    {"type": "object", "title": "K5", "required": ["a"]}, {"type": "object", "title": "K6", "dependencies": {"a": {"required": ["b"]}}},
+    {"type": "object", "title": "K7", "patternProperties": {"^a": {"type": "integer"}}, "additionalProperties": {"type": "string"}},
 ]
 
 DEFAULTS = [None, False, True, 0, 1, "", "a", [], [1], {}, {"a": 1}, 1.5]
